@@ -29,6 +29,7 @@ func (u *Unit) entryEnv(top *Frame, entry *State) *Env {
 	env := &Env{u: u, st: entry, old: entry, fr: nil, vars: map[string]EVal{}, pkg: u.Pkg, fn: u.Fn, freshLo: u.entryFresh}
 	for n, v := range top.Params {
 		env.vars[n] = EVal{T: v.T, Ty: top.paramTypes[n]}
+		env.vars[n+"$entry"] = EVal{T: v.T, Ty: top.paramTypes[n]}
 	}
 	return env
 }
@@ -327,6 +328,14 @@ func (u *Unit) invEnv(st *State, fr *Frame) *Env {
 	}
 	env.st = st
 	env.fr = fr
+	// inside the function body plain names denote the current value of the local
+	// variable; the entry value of a parameter is available as name$entry
+	for n, v := range env.vars {
+		_ = v
+		if !strings.HasSuffix(n, "$entry") && localAlloc(fr.Fn, n) != nil {
+			delete(env.vars, n)
+		}
+	}
 	return env
 }
 
@@ -439,12 +448,22 @@ func storeRoot(v ssa.Value) *ssa.Alloc {
 	}
 }
 
+// writeSite: a heap write inside a loop, to be framed by the object it hits.
+type writeSite struct {
+	keys  map[string]bool
+	addr  ssa.Value // address operand (Store) or nil
+	slice ssa.Value // slice whose backing array is written (append in place)
+	mapv  ssa.Value // map written
+	fn    *ssa.Function
+}
+
 type loopEffects struct {
 	cells     map[*ssa.Alloc]bool
 	localHeap map[*ssa.Alloc]bool // heap allocs of the frame written directly
 	keys      map[string]bool     // memory keys written through other pointers
 	all       bool
 	external  bool
+	sites     []writeSite
 	why       []string
 	ghosts    map[string]bool
 	iters     map[ssa.Value]bool
@@ -472,15 +491,13 @@ func (u *Unit) collectEffects(fn *ssa.Function, blocks map[*ssa.BasicBlock]bool,
 						continue
 					}
 				}
-				if fvRoot(x.Addr) != nil {
-					// store through a captured variable: key-wide
-				}
-				u.leafKeys(x.Val.Type(), eff.keys)
+				ks := map[string]bool{}
+				u.leafKeys(x.Val.Type(), ks)
+				eff.sites = append(eff.sites, writeSite{keys: ks, addr: x.Addr, fn: fn})
 			case *ssa.MapUpdate:
 				tk := typeKey(x.Map.Type().Underlying().(*types.Map))
-				eff.keys["maphas:"+tk] = true
-				eff.keys["mapval:"+tk] = true
-				eff.keys["maplen:"+tk] = true
+				ks := map[string]bool{"maphas:" + tk: true, "mapval:" + tk: true, "maplen:" + tk: true}
+				eff.sites = append(eff.sites, writeSite{keys: ks, mapv: x.Map, fn: fn})
 			case *ssa.Next:
 				eff.iters[x.Iter] = true
 			case *ssa.Send, *ssa.Select:
@@ -524,12 +541,14 @@ func (u *Unit) callEffects(fn *ssa.Function, c *ssa.CallCommon, eff *loopEffects
 		switch b.Name() {
 		case "append":
 			if sl, ok := c.Args[0].Type().Underlying().(*types.Slice); ok {
-				u.leafKeys(sl.Elem(), eff.keys)
+				ks := map[string]bool{}
+				u.leafKeys(sl.Elem(), ks)
+				eff.sites = append(eff.sites, writeSite{keys: ks, slice: c.Args[0], fn: fn})
 			}
 		case "delete":
 			tk := typeKey(c.Args[0].Type().Underlying().(*types.Map))
-			eff.keys["maphas:"+tk] = true
-			eff.keys["maplen:"+tk] = true
+			ks := map[string]bool{"maphas:" + tk: true, "maplen:" + tk: true}
+			eff.sites = append(eff.sites, writeSite{keys: ks, mapv: c.Args[0], fn: fn})
 		case "close":
 			eff.chans = true
 		case "copy":
@@ -803,24 +822,26 @@ func (u *Unit) havocLoop(st *State, fr *Frame, li *loopInfo) {
 		debugf("loop %s of %s havocs everything: %v", li.label, fr.Fn.Name(), eff.why)
 		u.havocAll(st, fr)
 	} else {
+		u.framedWrites(st, fr, li, eff)
 		if eff.external {
 			locals := u.notInLocals(u.unleakedLocals(fr))
 			pred := func(addr Term) Term { return And(locals(addr), u.notPrivate(addr)) }
 			st.AllHavocs = append(st.AllHavocs, pred)
 		}
-		var ks []string
-		for k := range eff.keys {
-			ks = append(ks, k)
-		}
-		sort.Strings(ks)
-		locals := u.unleakedLocals(fr)
-		pred := u.notInLocals(locals)
-		for _, k := range ks {
-			if _, ok := st.MemSort[k]; !ok {
-				continue
+		if len(eff.sites) == 0 {
+			var ks []string
+			for k := range eff.keys {
+				ks = append(ks, k)
 			}
-			u.curMem(st, k)
-			u.havocKey(st, k, pred)
+			sort.Strings(ks)
+			pred := u.notInLocals(u.unleakedLocals(fr))
+			for _, k := range ks {
+				if _, ok := st.MemSort[k]; !ok {
+					continue
+				}
+				u.curMem(st, k)
+				u.havocKey(st, k, pred)
+			}
 		}
 	}
 	for it := range eff.iters {
@@ -929,4 +950,229 @@ func (u *Unit) loadAt(st *State, fr *Frame, in ssa.Instruction, addr Term, t typ
 		u.Axiom(inRange(t, v)) // a typed location always holds a value of its type
 	}
 	return v
+}
+
+// framedWrites turns the write sites of a loop into a frame: a site whose
+// target object can be evaluated at the loop head from loop-invariant
+// locations only modifies that object (or objects allocated by the loop);
+// any other site modifies its memory keys wholesale.
+func (u *Unit) framedWrites(st *State, fr *Frame, li *loopInfo, eff *loopEffects) {
+	if len(eff.sites) == 0 {
+		return
+	}
+	clock := IntLit(int64(u.fresh))
+	// fields (struct type, index) stored directly in the loop: loads of those are unstable
+	storedFields := map[string]bool{}
+	for _, s := range eff.sites {
+		if fa, ok := s.addr.(*ssa.FieldAddr); ok {
+			storedFields[u.fieldFn(derefType(fa.X.Type()), fa.Field)] = true
+		}
+	}
+	inLoop := func(v ssa.Value) bool {
+		in, ok := v.(ssa.Instruction)
+		if !ok {
+			return false
+		}
+		if in.Parent() != fr.Fn {
+			return true // inside an inlined closure of the loop body
+		}
+		return li.blocks[in.Block()]
+	}
+	imprecise := map[string]bool{}
+	for k := range eff.keys {
+		imprecise[k] = true
+	}
+	type base struct {
+		obj   Term // object identity: aobj(...) term or map reference
+		isMap bool
+	}
+	var eval func(v ssa.Value, depth int) (Term, bool, bool) // term, freshInLoop, ok
+	eval = func(v ssa.Value, depth int) (Term, bool, bool) {
+		if depth > 8 {
+			return Term{}, false, false
+		}
+		switch x := v.(type) {
+		case *ssa.Alloc:
+			if inLoop(x) {
+				return Term{}, true, true
+			}
+			if val, ok := fr.Vals[x]; ok && val.Cell == nil && val.Tuple == nil {
+				return val.T, false, true
+			}
+			return Term{}, false, false
+		case *ssa.Parameter, *ssa.FreeVar, *ssa.Global, *ssa.Const:
+			if x.Parent() != nil && x.Parent() != fr.Fn {
+				return Term{}, false, false
+			}
+			val := u.val(st, fr, v)
+			if val.Cell != nil || val.Tuple != nil {
+				return Term{}, false, false
+			}
+			return val.T, false, true
+		case *ssa.MakeSlice, *ssa.MakeMap, *ssa.MakeClosure, *ssa.MakeChan:
+			if inLoop(v) {
+				return Term{}, true, true
+			}
+		case *ssa.FieldAddr:
+			b, fresh, ok := eval(x.X, depth+1)
+			if !ok || fresh {
+				return Term{}, fresh, ok
+			}
+			return u.fieldAddr(b, derefType(x.X.Type()), x.Field), false, true
+		case *ssa.IndexAddr:
+			// the element address is not needed, only the object: return the base object
+			return eval(x.X, depth+1)
+		case *ssa.Slice:
+			return eval(x.X, depth+1)
+		case *ssa.Call:
+			if b, ok := x.Call.Value.(*ssa.Builtin); ok && b.Name() == "append" {
+				return eval(x.Call.Args[0], depth+1)
+			}
+		case *ssa.UnOp:
+			if x.Op != token.MUL {
+				return Term{}, false, false
+			}
+			// load: from a stable cell, or from a heap location not written in the loop
+			if a, ok := x.X.(*ssa.Alloc); ok && !a.Heap && a.Parent() == fr.Fn {
+				if eff.cells[a] {
+					// a loop-carried variable: its value at the head is arbitrary, but if it
+					// only ever holds objects created by the loop or the pre-loop value we
+					// cannot tell; give up
+					return Term{}, false, false
+				}
+				if _, ok := fr.Cells[a]; ok {
+					t, _ := u.cellLoad(fr, &CellAddr{A: a})
+					return t, false, true
+				}
+				return Term{}, false, false
+			}
+			if fa, ok := x.X.(*ssa.FieldAddr); ok {
+				if storedFields[u.fieldFn(derefType(fa.X.Type()), fa.Field)] {
+					return Term{}, false, false
+				}
+				if imprecise[typeKey(x.Type())] {
+					return Term{}, false, false
+				}
+				addr, fresh, ok := eval(fa, depth+1)
+				if !ok || fresh {
+					return Term{}, fresh, ok
+				}
+				return u.load(st, addr, x.Type()), false, true
+			}
+			if a, ok := x.X.(*ssa.Alloc); ok && a.Heap && a.Parent() == fr.Fn && !inLoop(a) {
+				if eff.localHeap[a] || imprecise[typeKey(x.Type())] {
+					return Term{}, false, false
+				}
+				if val, ok := fr.Vals[a]; ok && val.Cell == nil {
+					return u.load(st, val.T, x.Type()), false, true
+				}
+			}
+		}
+		return Term{}, false, false
+	}
+	for round := 0; round < 3; round++ {
+		bases := map[string][]base{}
+		changed := false
+		for _, s := range eff.sites {
+			var t Term
+			var fresh, ok, isMap bool
+			switch {
+			case s.fn != fr.Fn:
+				ok = false // written by an inlined closure: not analysed
+			case s.addr != nil:
+				t, fresh, ok = eval(s.addr, 0)
+				if ok && !fresh {
+					t = App("aobj", SV, t)
+				}
+			case s.slice != nil:
+				t, fresh, ok = eval(s.slice, 0)
+				if ok && !fresh {
+					t = App("aobj", SV, u.sptrOf(t))
+				}
+			case s.mapv != nil:
+				t, fresh, ok = eval(s.mapv, 0)
+				isMap = true
+			}
+			// IndexAddr / Slice bases evaluate to the slice header or array pointer
+			if ok && !fresh && s.addr != nil {
+				if root := indexRoot(s.addr); root != nil {
+					if _, isSl := root.Type().Underlying().(*types.Slice); isSl {
+						hv, f2, ok2 := eval(root, 0)
+						if ok2 && !f2 {
+							t = App("aobj", SV, u.sptrOf(hv))
+						}
+						ok, fresh = ok2, f2
+					}
+				}
+			}
+			for k := range s.keys {
+				if !ok {
+					if !imprecise[k] {
+						imprecise[k] = true
+						changed = true
+					}
+					continue
+				}
+				if !fresh {
+					bases[k] = append(bases[k], base{obj: t, isMap: isMap})
+				} else if _, have := bases[k]; !have {
+					bases[k] = nil
+				}
+			}
+		}
+		if changed && round < 2 {
+			continue
+		}
+		locals := u.notInLocals(u.unleakedLocals(fr))
+		var ks []string
+		for k := range bases {
+			ks = append(ks, k)
+		}
+		for k := range imprecise {
+			if _, ok := bases[k]; !ok {
+				ks = append(ks, k)
+			}
+		}
+		sort.Strings(ks)
+		for _, k := range ks {
+			if _, ok := st.MemSort[k]; !ok {
+				continue
+			}
+			u.curMem(st, k)
+			if imprecise[k] {
+				debugf("loop %s of %s: key %s havocked wholesale", li.label, fr.Fn.Name(), k)
+				u.havocKey(st, k, locals)
+				continue
+			}
+			bs := bases[k]
+			u.havocKey(st, k, func(addr Term) Term {
+				var alts []Term
+				isMapKey := strings.HasPrefix(k, "map")
+				obj := App("aobj", SV, addr)
+				if isMapKey {
+					obj = addr
+				}
+				alts = append(alts, Gt(App("aid", SInt, obj), clock))
+				for _, b := range bs {
+					alts = append(alts, Eq(obj, b.obj))
+				}
+				return And(locals(addr), Or(alts...))
+			})
+		}
+		return
+	}
+}
+
+// indexRoot returns the collection operand of the innermost IndexAddr of an address chain.
+func indexRoot(v ssa.Value) ssa.Value {
+	for {
+		switch x := v.(type) {
+		case *ssa.FieldAddr:
+			v = x.X
+		case *ssa.IndexAddr:
+			return x.X
+		default:
+			return nil
+		}
+	}
 }
